@@ -1,7 +1,10 @@
 (* C17 — Which files belong in a module zip is a fixed function of the tree.
    Property theorems only; each is closed by [exact] of a lemma proved in Zip/Proofs*.v. *)
 From Verif.Base Require Import Bytes PathClean.
-From Verif.Zip Require Import Check ProofsColl ProofsClass.
+From Verif.Gen Require Import GenConsts.
+From Verif.Module Require Import Path.
+From Verif.Zip Require Import Check Create ProofsColl ProofsClass ProofsZip ProofsRules ProofsDirList ProofsRepeated.
+From Coq Require Import Sorting.Permutation.
 
 (* For a list of files with distinct paths, every path is in exactly one of Valid, Omitted
    and Invalid of the report of checkFiles (whatever the go version regime ge124), and the
@@ -27,3 +30,194 @@ Theorem C17_check_files_no_fuel :
   forall (ge124 : bool) (files : list file), c_fuel (check_files_with ge124 files) = false.
 Proof. exact check_files_no_fuel. Qed.
 Print Assumptions C17_check_files_no_fuel.
+
+(* Lists with repeated paths (nothing is hidden by the NoDup hypothesis above): every input path
+   is reported in at least one list; no path is both omitted and invalid and none is repeated
+   within Omitted/Invalid (first report wins) or within Valid; a path that is valid AND reported
+   as omitted or invalid occurs at least twice in the input. *)
+Theorem C17_classification_repeated :
+  forall (ge124 : bool) (files : list file),
+    let cf := check_files_with ge124 files in
+    (forall p, In p (map f_path files) ->
+       In p (c_valid cf ++ map fst (c_omitted cf) ++ map fst (c_invalid cf))) /\
+    NoDup (map fst (c_omitted cf) ++ map fst (c_invalid cf)) /\
+    NoDup (c_valid cf) /\
+    (forall p, In p (c_valid cf) -> In p (map fst (c_omitted cf) ++ map fst (c_invalid cf)) ->
+               (2 <= count_occ str_eq_dec (map f_path files) p)%nat).
+Proof. exact classification_repeated. Qed.
+Print Assumptions C17_classification_repeated.
+
+(* what repetition does: a repeated valid regular path is in Valid once and in Invalid once as
+   "multiple entries"; and it is not always the first occurrence that decides - a path whose
+   first occurrence fails Lstat and whose second is a regular file is Invalid AND Valid *)
+Example C17_repeated_examples :
+  let f lstat := mkFile (B "a.go") lstat MRegular 1 true (B "x") false in
+  check_files [f true; f true; f true]
+    = mkChecked [B "a.go"] [] [(B "a.go", FE_CollMultiple)] false false /\
+  check_files [f false; f true]
+    = mkChecked [B "a.go"] [] [(B "a.go", FE_Lstat)] false false.
+Proof. split; vm_compute; reflexivity. Qed.
+
+(* The class of every file of a list with distinct paths is the declarative decision list below,
+   evaluated on the file's path, Lstat result (error | mode, size), the go-version regime, and a
+   context consisting only of the set of go.mod directories of the list and the collision
+   checker filled by the earlier files that reach it (coll_after: a function of their paths and
+   is-directory flags).  Together with C17_classification_total_exclusive (exactly one list)
+   this determines the report; nothing else influences the class. *)
+Theorem C17_classification_by_rules :
+  forall (ge124 : bool) (files pre : list file) (f : file) (post : list file),
+    NoDup (map f_path files) -> files = pre ++ f :: post ->
+    let have := have_gomod files in
+    let cc := coll_after ge124 have pre in
+    let p := f_path f in
+    class_in (check_files_with ge124 files) p
+      (if gomod_named p && negb (f_lstat_ok f) then CInvalid FE_Lstat
+       else match pre_class ge124 have p with
+            | Some (true, e) => COmitted e
+            | Some (false, e) => CInvalid e
+            | None =>
+                if negb (f_lstat_ok f) then CInvalid FE_Lstat
+                else match snd (cc_check (S (length p)) cc p (is_dir_mode (f_mode f))) with
+                     | CCErr e => CInvalid e
+                     | CCFuel => CInvalid FE_Lstat
+                     | CCOk =>
+                         match f_mode f with
+                         | MSymlink => COmitted FE_Symlink
+                         | MDir | MOther => COmitted FE_NotRegular
+                         | MRegular =>
+                             if str_eqb p go_mod && (zip_MaxGoMod <? f_size f) then CInvalid FE_GoModSize
+                             else if str_eqb p (B "LICENSE") && (zip_MaxLICENSE <? f_size f)
+                                  then CInvalid FE_LicenseSize
+                             else CValid
+                         end
+                     end
+            end).
+Proof. exact classification_by_rules. Qed.
+Print Assumptions C17_classification_by_rules.
+
+(* the path-only part of the decision list (pre_class), spelled out *)
+Theorem C17_pre_class_unfold :
+  forall (ge124 : bool) (have : list str) (p : str),
+    pre_class ge124 have p =
+      if negb (str_eqb p (path_clean p)) then Some (false, FE_NotClean)
+      else if path_is_abs p then Some (false, FE_NotRelative)
+      else if is_vendored_package p ge124 then Some (true, FE_Vendored)
+      else if in_submodule have p then Some (true, FE_SubmoduleFile)
+      else if str_eqb p (B ".hg_archival.txt") then Some (true, FE_HgArchival)
+      else if negb (ok_b (check_file_path p)) then Some (false, FE_BadPath)
+      else if str_eqb (ascii_lower p) go_mod && negb (str_eqb p go_mod) then Some (false, FE_GoModCase)
+      else None.
+Proof. reflexivity. Qed.
+Print Assumptions C17_pre_class_unfold.
+
+(* Order independence.  "No collisions": the paths registered by the files that reach the
+   collision check (each path and its ancestor directories) are pairwise compatible, i.e.
+   equal under case folding only if they are the same directory.  Then this also holds for
+   every permutation of the list, and every file gets the same class (valid / omitted with the
+   same reason / invalid with the same reason) in both orders. *)
+Theorem C17_order_independence :
+  forall (ge124 : bool) (files files' : list file),
+    Permutation files files' -> NoDup (map f_path files) ->
+    coll_free (reach_items ge124 (have_gomod files) files) ->
+    coll_free (reach_items ge124 (have_gomod files') files') /\
+    (forall f, In f files ->
+       class_in (check_files_with ge124 files) (f_path f) (rule_nocoll ge124 (have_gomod files) f) /\
+       class_in (check_files_with ge124 files') (f_path f) (rule_nocoll ge124 (have_gomod files) f)).
+Proof. exact order_independence. Qed.
+Print Assumptions C17_order_independence.
+
+(* in particular the set Valid is invariant under permutation of the input *)
+Theorem C17_order_independence_valid :
+  forall (ge124 : bool) (files files' : list file),
+    Permutation files files' -> NoDup (map f_path files) ->
+    coll_free (reach_items ge124 (have_gomod files) files) ->
+    forall p, In p (c_valid (check_files_with ge124 files)) <-> In p (c_valid (check_files_with ge124 files')).
+Proof. exact order_independence_valid. Qed.
+Print Assumptions C17_order_independence_valid.
+
+(* "no collisions" can be read off the report: no file is reported with one of the three
+   collision errors.  (With collisions, which of the colliding paths is invalid depends on the
+   order: C17_classification_by_rules says exactly how, through coll_after.) *)
+Theorem C17_no_collision_report_free :
+  forall (ge124 : bool) (files : list file),
+    NoDup (map f_path files) ->
+    (forall p e, In (p, e) (c_invalid (check_files_with ge124 files)) ->
+       match e with FE_CollCase | FE_CollFileDir | FE_CollMultiple => false | _ => true end = true) ->
+    coll_free (reach_items ge124 (have_gomod files) files).
+Proof.
+  intros ge files Hnd H. apply no_collision_report_free; [exact Hnd|].
+  intros p e Hin. specialize (H p e Hin). destruct e; cbn in *; congruence.
+Qed.
+Print Assumptions C17_no_collision_report_free.
+
+(* Directory versus list.  FULL STATEMENT (DESIGN.md dir_vs_list_agree), not proved in this form:
+     for every tree ch of regular files and directories (well-formed distinct names) without
+     .bzr/.git/.hg/.svn directories,
+       c_valid (check_files (fst (list_files_in_dir ch))) = c_valid (check_files (all_regular_files ch))
+       (same order), the Invalid lists are equal, and create succeeds on one list iff on the other
+       with the same entries.
+   PROVED: the same conclusion for every tree that satisfies the decidable side condition
+   dir_list_condition (Zip/Check.v): the pruned listing is the plain list minus some files, every
+   dropped file is omitted by checkFiles before the collision check, the path-only decisions of
+   the kept files are the same with the go.mod directories of either list, and both lists select
+   the same go version.  The list-level core is check_files_filter_agree (ProofsDirList.v).
+   MISSING: dir_list_condition ch = true for every well-formed plain tree (an induction over the
+   walk of listFilesInDir plus two closure facts about isVendoredPackage: a vendored directory
+   or a vendored go.mod-named file has only vendored files below / beside it).  The condition is
+   evaluated by the model on every generated plain tree (correspondence case
+   "zip.DirListCondition", expected 1), and the implementation-side oracle dir-vs-list compares
+   CheckDir/CreateFromDir with CheckFiles/Create on the same trees. *)
+Theorem C17_dir_vs_list_agree_partial :
+  forall (ch : list (str * tnode)),
+    dir_list_condition ch = true ->
+    let fl := fst (list_files_in_dir ch) in
+    let fa := all_regular_files ch in
+    c_valid (check_files fl) = c_valid (check_files fa) /\
+    c_invalid (check_files fl) = c_invalid (check_files fa) /\
+    c_sizeerr (check_files fl) = c_sizeerr (check_files fa) /\
+    valid_files fl = valid_files fa /\
+    (forall mp mv, create mp mv fl = create mp mv fa).
+Proof. exact dir_vs_list_agree_partial. Qed.
+Print Assumptions C17_dir_vs_list_agree_partial.
+
+(* the list-level core: dropping files that checkFiles omits before the collision check does not
+   change Valid, Invalid or the size error, as long as the path-only decisions of the other
+   files stay the same *)
+Theorem C17_check_files_filter_agree :
+  forall (ge124 : bool) (fa : list file) (keep : file -> bool),
+    Forall (fun f => f_lstat_ok f = true) fa ->
+    let fl := filter keep fa in
+    let removed := map f_path (filter (fun f => negb (keep f)) fa) in
+    (forall f, In f fa -> keep f = false ->
+       exists e, pre_class ge124 (have_gomod fa) (f_path f) = Some (true, e)) ->
+    (forall f, In f fa -> keep f = true ->
+       ~ In (f_path f) removed /\
+       pre_class ge124 (have_gomod fa) (f_path f) = pre_class ge124 (have_gomod fl) (f_path f)) ->
+    s_valid (check_files_state ge124 fa) = s_valid (check_files_state ge124 fl) /\
+    c_valid (check_files_with ge124 fa) = c_valid (check_files_with ge124 fl) /\
+    c_invalid (check_files_with ge124 fa) = c_invalid (check_files_with ge124 fl) /\
+    c_sizeerr (check_files_with ge124 fa) = c_sizeerr (check_files_with ge124 fl) /\
+    c_fuel (check_files_with ge124 fa) = c_fuel (check_files_with ge124 fl).
+Proof. exact check_files_filter_agree. Qed.
+Print Assumptions C17_check_files_filter_agree.
+
+(* non-vacuity of the side condition: a tree with a vendored package, a nested module and a
+   nested upper-case GO.MOD *)
+Example C17_dir_list_condition_example :
+  let file c := TFile MRegular (B c) false in
+  dir_list_condition
+    [(B "go.mod", TFile MRegular (B "module m") false);
+     (B "a", TDir [(B "x.go", TFile MRegular (B "x") false); (B "GO.MOD", TFile MRegular (B "") false)]);
+     (B "sub", TDir [(B "go.mod", TFile MRegular (B "") false); (B "y.go", TFile MRegular (B "y") false)]);
+     (B "vendor", TDir [(B "p", TDir [(B "q.go", TFile MRegular (B "q") false)]); (B "modules.txt", TFile MRegular (B "") false)])]
+  = true.
+Proof. vm_compute. reflexivity. Qed.
+
+(* non-vacuity: a list with a vendored file, a nested module, a case collision and a valid file *)
+Example C17_example_classes :
+  let f (p : str) := mkFile p true MRegular 3 true (B "abc") false in
+  check_files [f (B "go.mod"); f (B "a/b.go"); f (B "A/c.go"); f (B "vendor/x/y.go"); f (B "sub/go.mod"); f (B "sub/x.go")]
+  = mkChecked [B "go.mod"; B "a/b.go"]
+              [(B "vendor/x/y.go", FE_Vendored); (B "sub/go.mod", FE_SubmoduleFile); (B "sub/x.go", FE_SubmoduleFile)]
+              [(B "A/c.go", FE_CollCase)] false false.
+Proof. vm_compute. reflexivity. Qed.
